@@ -10,7 +10,7 @@ use oracle::rng::mix;
 use serde_json::json;
 
 pub const ID: &str = "C05";
-pub const FAMS: [&str; 4] = ["auto-version-every-length", "forced-at-threshold", "far-beyond", "forced-every-version"];
+pub const FAMS: [&str; 5] = ["auto-version-every-length", "forced-at-threshold", "far-beyond", "forced-every-version", "no-level-given"];
 
 const MAX_LEN: usize = 7200;
 
@@ -79,6 +79,30 @@ pub fn jobs(ctx: &Ctx) -> Vec<Job> {
                 jobs.push(mk(FAMS[2], class, None, level, Some(40), len, &mut k));
                 jobs.push(mk(FAMS[2], class, Some(class), level, Some(1), len, &mut k));
             }
+            if level == oracle::tables::Q {
+                // no level given: Q is in effect. Every threshold of Q +-2, every 16th length, and the whole
+                // stretch from the version-40 capacity at Q up to beyond the one at L (where a build that
+                // quietly lowers the level would still find room), automatic and forced version
+                let mut lens: Vec<usize> = (0..=MAX_LEN).step_by(16).collect();
+                for v in 1..=40 {
+                    let c = caps.cap(v, level, class);
+                    lens.extend(c.saturating_sub(2)..=c + 2);
+                }
+                let q40 = caps.cap(40, level, class);
+                let l40 = caps.cap(40, oracle::tables::L, class);
+                lens.extend((q40..=l40 + 3).step_by(ctx.tier.pick(7, 1)));
+                for lv in 0..4 {
+                    let c = caps.cap(40, lv, class);
+                    lens.extend(c.saturating_sub(2)..=c + 2);
+                }
+                lens.sort();
+                lens.dedup();
+                for len in lens {
+                    let mut j = mk(FAMS[4], class, if len % 2 == 0 { Some(class) } else { None }, level, if len % 3 == 0 { Some(40) } else { None }, len, &mut k);
+                    j.level = None;
+                    jobs.push(j);
+                }
+            }
             if ctx.tier == Tier::Thorough {
                 let top = caps.cap(40, level, class);
                 for len in 0..=top + 2 {
@@ -97,7 +121,11 @@ pub fn observe(ctx: &Ctx, st: &mut Stats, job: &Job, idx: usize) {
     st.eval();
     let want = symbol::expect(&cfg, &ctx.caps);
     let out = adapter::build(&cfg);
-    let level = cfg.level.unwrap();
+    // "the level in effect": the one given, or Q when the caller gives none
+    let level = cfg.level.unwrap_or(oracle::tables::Q);
+    if cfg.level.is_none() {
+        st.count("default_level_executions", 1);
+    }
     let mode = cfg.mode.unwrap_or(job.class);
     st.reach("mode_level", (job.class * 4 + level) as u64);
     match (&want, &out) {
@@ -175,7 +203,7 @@ pub fn run(ctx: &Ctx) -> Report {
     let mut rep = Report::new(
         st,
         &format!(
-            "jobs = EVERY length 0..={MAX_LEN} x 3 modes x 4 levels with automatic version (mode forced; additionally automatic mode at every 8th length and within +-2 of all 480 thresholds), forced versions {{1, vmin-1, vmin, vmin+1, v, 40}} at all 480 thresholds +-1, lengths 10^4, 65535, 65536, 10^5, 10^6{}; expected outcome from the oracle's capacity arithmetic (4 + count bits + payload bits <= 8 x data codewords, Table 9 derived), observed outcome must be Ok with exactly that version / Err(SpecifiedVersion) / Err(EncodedData), never a panic (overflow checks on); capacity-filling and threshold symbols plus every 16th build are fully reference-decoded; distinct key = (mode, level, forced version, len); non-trivial = every case (each is one point of the property's quantifier)",
+            "jobs = EVERY length 0..={MAX_LEN} x 3 modes x 4 levels with automatic version (mode forced; additionally automatic mode at every 8th length and within +-2 of all 480 thresholds), forced versions {{1, vmin-1, vmin, vmin+1, v, 40}} at all 480 thresholds +-1, lengths 10^4, 65535, 65536, 10^5, 10^6, builds with NO level given (Q in effect) at every Q threshold +-2, every 16th length and the stretch from the version-40 capacity at Q to beyond the one at L{}; expected outcome from the oracle's capacity arithmetic (4 + count bits + payload bits <= 8 x data codewords, Table 9 derived), observed outcome must be Ok with exactly that version / Err(SpecifiedVersion) / Err(EncodedData), never a panic (overflow checks on); capacity-filling and threshold symbols plus every 16th build are fully reference-decoded; distinct key = (mode, level, forced version, len); non-trivial = every case (each is one point of the property's quantifier)",
             if thorough { "; thorough: EVERY forced version 1..40 for EVERY length 0..=cap(40)+2" } else { "" }
         ),
     );
